@@ -558,6 +558,14 @@ theorem c19_mro (ds : List (Option Doc)) :
    accumulate_none_proj (·.below) (fun _ _ => rfl) rfl ds,
    accumulate_none_proj (·.cls) (fun _ _ => rfl) rfl ds⟩
 
+/-- **History independence of the specification**: in any sequence of look-ups, the answer to a
+    look-up is the one-shot answer for that class and field — whatever was looked up before or
+    after (other classes of the chain, the same class again, unrelated classes with the same field
+    name).  The correspondence op `doc.history` holds the real, caching extractor to this. -/
+theorem c19_history (pre post : List (List ClassSrc × Str)) (q : List ClassSrc × Str) :
+    (answerAll (pre ++ q :: post))[pre.length]? = some (attributeDoc q.1 q.2) := by
+  simp [answerAll]
+
 /-! ### precedence -/
 
 /-- an explicit `help=` handed to `simple_parsing.field` wins over everything -/
